@@ -73,6 +73,9 @@ type C09Params struct {
 	// Chain: the upstream's correct answers list the address record of the CNAME target first, then the CNAME of
 	// the queried name (Answer[0] is not owned by the query name).
 	Chain bool
+	// PacketPath: clients enter through Handle_ (transparent UDP path: no ResponseWriter, replies leave through
+	// sendRuntimeTrackedPkt onto loopback sockets, see c09udp.go); at most 3 clients.
+	PacketPath bool
 	// Upstream behaviours enabled (names, choice 0 = "ok" is always first). Empty = all of the layer.
 	Behaviours []string
 	MaxSteps   int
@@ -116,12 +119,30 @@ func c9TagRR(q dnsmessage.Question) dnsmessage.RR {
 		ip := make(net.IP, 16)
 		ip[0], ip[1], ip[14], ip[15] = 0xfd, 0x09, i, 28
 		return &dnsmessage.AAAA{Hdr: dnsmessage.RR_Header{Name: q.Name, Rrtype: dnsmessage.TypeAAAA, Class: dnsmessage.ClassINET, Ttl: 300}, AAAA: ip}
+	case dnsmessage.TypeTXT:
+		// a large answer (> 1024 bytes packed): the tag string, then padding
+		pad := strings.Repeat("x", 250)
+		return &dnsmessage.TXT{Hdr: dnsmessage.RR_Header{Name: q.Name, Rrtype: dnsmessage.TypeTXT, Class: dnsmessage.ClassINET, Ttl: 300}, Txt: []string{c9TextTag(int(i), q.Qtype), pad, pad, pad, pad, pad}}
+	case dnsmessage.TypeCAA:
+		return &dnsmessage.CAA{Hdr: dnsmessage.RR_Header{Name: q.Name, Rrtype: dnsmessage.TypeCAA, Class: dnsmessage.ClassINET, Ttl: 300}, Tag: "issue", Value: c9TextTag(int(i), q.Qtype)}
 	case dnsmessage.TypeSVCB:
 		return &dnsmessage.SVCB{Hdr: dnsmessage.RR_Header{Name: q.Name, Rrtype: dnsmessage.TypeSVCB, Class: dnsmessage.ClassINET, Ttl: 300}, Priority: uint16(i)*100 + dnsmessage.TypeSVCB, Target: "svc.c9.test."}
 	case dnsmessage.TypeHTTPS:
 		return &dnsmessage.HTTPS{SVCB: dnsmessage.SVCB{Hdr: dnsmessage.RR_Header{Name: q.Name, Rrtype: dnsmessage.TypeHTTPS, Class: dnsmessage.ClassINET, Ttl: 300}, Priority: uint16(i)*100 + dnsmessage.TypeHTTPS, Target: "svc.c9.test."}}
 	}
 	return &dnsmessage.A{Hdr: dnsmessage.RR_Header{Name: q.Name, Rrtype: dnsmessage.TypeA, Class: dnsmessage.ClassINET, Ttl: 300}, A: net.IPv4(10, 9, i, 1).To4()}
+}
+
+func c9TextTag(i int, qtype uint16) string {
+	return "c9-" + strconv.Itoa(i) + "-" + strconv.Itoa(int(qtype))
+}
+
+func c9TextTagQ(tag string, want uint16) c9Q {
+	var i, t int
+	if n, err := fmt.Sscanf(tag, "c9-%d-%d", &i, &t); err != nil || n != 2 || i < 1 || i > len(c9Names) || uint16(t) != want {
+		return c9Q{}
+	}
+	return c9Q{c9Names[i-1], want}
 }
 
 func c9SvcTag(prio uint16) c9Q {
@@ -147,6 +168,12 @@ func c9RRFor(rr dnsmessage.RR) c9Q {
 		if ip != nil && ip[0] == 0xfd && ip[1] == 0x09 && ip[15] == 28 && int(ip[14]) >= 1 && int(ip[14]) <= len(c9Names) {
 			return c9Q{c9Names[ip[14]-1], dnsmessage.TypeAAAA}
 		}
+	case *dnsmessage.TXT:
+		if len(x.Txt) > 0 {
+			return c9TextTagQ(x.Txt[0], dnsmessage.TypeTXT)
+		}
+	case *dnsmessage.CAA:
+		return c9TextTagQ(x.Value, dnsmessage.TypeCAA)
 	case *dnsmessage.SVCB:
 		return c9SvcTag(x.Priority)
 	case *dnsmessage.HTTPS:
@@ -216,6 +243,8 @@ func c9Foreign(q dnsmessage.Question, kind string) dnsmessage.Question {
 			f.Qtype = dnsmessage.TypeHTTPS
 		case dnsmessage.TypeHTTPS:
 			f.Qtype = dnsmessage.TypeSVCB
+		case dnsmessage.TypeCAA:
+			f.Qtype = dnsmessage.TypeA
 		default:
 			f.Qtype = dnsmessage.TypeA
 		}
@@ -290,6 +319,8 @@ type c9Env struct {
 	finished   bool
 	behaviours []string
 	scriptPos  int
+	images     map[*[]byte][]byte // every published pre-packed cache image as first seen
+	imageSig   string             // set when a published image was seen with other bytes later
 	dialer     *dialer.Dialer
 	setupErr   string
 }
@@ -681,7 +712,14 @@ func (e *c9Env) runClient(co *c9ClientObs) {
 		src := netip.AddrPortFrom(netip.AddrFrom4([4]byte{192, 168, 7, byte(10 + co.idx)}), uint16(40000+co.idx))
 		req := &udpRequest{realSrc: src, realDst: netip.MustParseAddrPort("192.0.2.53:53"), src: src, routingResult: &bpfRoutingResult{}}
 		qo.start = e.next()
-		qo.err = e.ctrl.HandleWithResponseWriter_(context.Background(), m, req, &c9Writer{obs: qo})
+		if e.p.PacketPath {
+			// transparent UDP path: lConn set, replies go to the client's own (loopback) address
+			req.realDst, req.realSrc, req.src, req.lConn = c9PktSendAddr, c9PktRecvAddr[co.idx], c9PktRecvAddr[co.idx], c9PktSend
+			qo.err = e.ctrl.Handle_(context.Background(), m, req)
+			e.watchImages(fmt.Sprintf("after client %d's query", co.idx))
+		} else {
+			qo.err = e.ctrl.HandleWithResponseWriter_(context.Background(), m, req, &c9Writer{obs: qo})
+		}
 		qo.end = e.next()
 		qo.done = true
 	}
@@ -732,6 +770,14 @@ func (e *c9Env) setup() error {
 		},
 		TimeoutExceedCallback: func(*dialArgument, error) {},
 	}
+	if p.PacketPath {
+		if len(p.Clients) > c9PktClients {
+			return fmt.Errorf("packet path: at most %d clients", c9PktClients)
+		}
+		if err := c9PktInstall(); err != nil {
+			return err
+		}
+	}
 	c, err := NewDnsController(c9Routings[p.Layer], opt)
 	if err != nil {
 		return err
@@ -739,6 +785,71 @@ func (e *c9Env) setup() error {
 	c.dnsForwarderIdleTTL = c9IdleTTL
 	e.ctrl = c
 	return nil
+}
+
+// watchImages: the pre-packed reply of a cache entry is one byte slice shared by every hit (and by the next
+// generation after a reload); once published it must never change — a hit that writes into it (e.g. its
+// transaction ID) races with every other hit. Compared by identity of the published slice: a re-pack publishes a
+// new slice.
+func (e *c9Env) watchImages(when string) {
+	if e.images == nil {
+		e.images = map[*[]byte][]byte{}
+	}
+	e.ctrl.dnsCache.Range(func(k, v any) bool {
+		dc, _ := v.(*DnsCache)
+		if dc == nil {
+			return true
+		}
+		ptr := dc.packedResponse.Load()
+		if ptr == nil || *ptr == nil {
+			return true
+		}
+		if first, ok := e.images[ptr]; !ok {
+			e.images[ptr] = append([]byte(nil), (*ptr)...)
+		} else if string(first) != string(*ptr) && e.imageSig == "" {
+			d := 0
+			for d < len(first) && d < len(*ptr) && first[d] == (*ptr)[d] {
+				d++
+			}
+			e.imageSig = fmt.Sprintf("the published pre-packed reply of cache entry %q (%d bytes, shared by every cache hit) was modified in place %s: byte %d", k, len(first), when, d)
+		}
+		return true
+	})
+}
+
+// collectPackets: what each client's socket received becomes that client's replies (in arrival order; a client
+// has at most one query in flight, and every query of a client precedes its next one).
+func (e *c9Env) collectPackets() {
+	for _, co := range e.clients {
+		want := 0
+		for _, qo := range co.queries {
+			if qo.err == nil {
+				want++
+			}
+		}
+		pkts := c9PktDrain(co.idx, want)
+		// attribute in order: the k-th datagram belongs to the k-th query that reported success
+		k := 0
+		for _, qo := range co.queries {
+			if qo.err != nil || k >= len(pkts) {
+				continue
+			}
+			var m dnsmessage.Msg
+			if err := m.Unpack(pkts[k]); err != nil {
+				m = dnsmessage.Msg{}
+				m.Id = 0xffff
+			}
+			qo.msgs = append(qo.msgs, &m)
+			k++
+		}
+		for ; k < len(pkts); k++ { // surplus datagrams: checked against the client's last query
+			var m dnsmessage.Msg
+			if err := m.Unpack(pkts[k]); err == nil && len(co.queries) > 0 {
+				last := co.queries[len(co.queries)-1]
+				last.msgs = append(last.msgs, &m)
+			}
+		}
+	}
 }
 
 func (e *c9Env) snapshotCache() {
@@ -830,6 +941,10 @@ func C09Scenario(p *C09Params) *vsched.Scenario {
 			e.ctrl.evictIdleDnsForwarders(time.Now())
 			vsched.Quiesce()
 		}
+		if p.PacketPath {
+			e.watchImages("by the end of the run")
+			e.collectPackets()
+		}
 		e.snapshotCache()
 		// retire-all (what a configuration reload does) with no query in flight: from here on every forwarder
 		// ever created must have been closed
@@ -851,7 +966,7 @@ func c9QuestionsAsked(e *c9Env) []c9Q {
 	// every (name, type) of the harness alphabet: a cache entry must belong to one of them
 	var out []c9Q
 	for _, n := range c9Names {
-		out = append(out, c9Q{n, dnsmessage.TypeA}, c9Q{n, dnsmessage.TypeAAAA}, c9Q{n, dnsmessage.TypeSVCB}, c9Q{n, dnsmessage.TypeHTTPS})
+		out = append(out, c9Q{n, dnsmessage.TypeA}, c9Q{n, dnsmessage.TypeAAAA}, c9Q{n, dnsmessage.TypeSVCB}, c9Q{n, dnsmessage.TypeHTTPS}, c9Q{n, dnsmessage.TypeTXT}, c9Q{n, dnsmessage.TypeCAA})
 	}
 	return out
 }
@@ -917,6 +1032,9 @@ func c9Check(p *C09Params, r *vsched.Result) (string, any) {
 				return fmt.Sprintf("%s: the handler reported success but nothing was written to the client", who), detail
 			}
 		}
+	}
+	if e.imageSig != "" {
+		return e.imageSig, detail
 	}
 	// 2. after quiescence every cache entry holds answers to the entry's own name and type
 	qs := c9QuestionsAsked(e)
